@@ -1713,7 +1713,8 @@ impl<'input, T: Input> Scanner<'input, T> {
             ));
         }
 
-        if self.mark.col < indent && (self.mark.col as isize) > self.indent {
+        // At the top level (`self.indent == -1`), a line at column 0 is not part of the scalar.
+        if self.mark.col < indent && (self.mark.col as isize) > self.indent.max(0) {
             return Err(ScanError::new_str(
                 self.mark,
                 "wrongly indented line in block scalar",
